@@ -164,7 +164,16 @@ def judgeScore (ver : String) (c : List Nat) (impl : String) : Option String × 
     | some k => !((want.getD i []).contains k)
     | none => true
   let vSpec : List String := if want.isEmpty || badSpec.isEmpty then [] else [propOf]
-  let detail := if !bad11.isEmpty then s!"score index {bad11} is not the double nearest k/10 in range"
+  -- Impact()/Exploitability(): within 1e-9 of the exact value of the same equations (driver-side check in hardware floats)
+  let subs := SpecScores.subScores ver val
+  let badSub := (List.range subs.length).filter fun i =>
+    let x := Float.ofBits (UInt64.ofNat (xs.getD (3 + i) 0))
+    let q := subs.getD i (0, 1)
+    let exact := Float.ofInt q.1 / Float.ofNat q.2
+    !((x - exact).abs <= 1e-9)
+  let vSpec := if badSub.isEmpty then vSpec else (if vSpec.contains propOf then vSpec else vSpec ++ [propOf])
+  let detail := if !badSub.isEmpty && bad11.isEmpty && !rej && badSpec.isEmpty then s!"sub-score index {badSub} (0 = Impact, 1 = Exploitability) differs from the exact equation value" else
+    if !bad11.isEmpty then s!"score index {bad11} is not the double nearest k/10 in range"
     else if rej then "Rating rejects the score"
     else if !vSpec.isEmpty then s!"score index {badSpec}: Spec wants tenths {want}" else ""
   (diff, v11 ++ vSpec, detail)
